@@ -296,6 +296,22 @@ func (c15) Execute(h *core.History) *core.Outcome {
 	st.Execs++
 	rWhole := ref.Input(whole, nil)
 	if rWhole.Class != "value" || rWhole.BudgetHit {
+		// Is the script error-free statement by statement? Then failing as a whole is the violation;
+		// otherwise the generator produced a bad script (after shrinking: a statement lost its definitions).
+		single := world.NewSession(cfg)
+		st.Execs++
+		okAll := !rWhole.BudgetHit
+		for _, sn := range stmts {
+			if r := single.Input(sn, nil); r.Class != "value" {
+				okAll = false
+				break
+			}
+		}
+		if okAll {
+			fail("chunked-session", "whole-fails", fmt.Sprintf("every statement succeeds when fed one at a time, but the script in one go gives %s %v: %q", rWhole.Class, truncAll(rWhole.Errs), trunc(whole, 300)))
+			st.Shape = "whole-fails"
+			return o
+		}
 		st.Discarded = true
 		st.Panic("script is not error-free as one input: " + rWhole.Class + fmt.Sprint(truncAll(rWhole.Errs)))
 		st.Shape = "script-fails"
